@@ -4,4 +4,8 @@ INVARIANT TamperRejected
 INVARIANT DontCareAccepted
 INVARIANT RegionsCovered
 INVARIANT NothingBeyond
+INVARIANT UnsettledOnlyInCorner
+INVARIANT CornerNeverAccepted
+INVARIANT SplitPrefixCovered
+INVARIANT SpecialsAccepted
 CHECK_DEADLOCK TRUE
